@@ -526,8 +526,20 @@ func runC09(c *ctx) {
 			for _, desc := range []bool{false, true} {
 				s := c09Scenario{t: all, colKind: kind, size: 3}
 				d := dictValues(f.code)
+				// a stride that walks the whole dictionary (5 would visit two entries of a ten-entry one)
+				stride := 5
+				for _, st := range []int{5, 3, 7, 1} {
+					g, x := st, len(d)
+					for x != 0 {
+						g, x = x, g%x
+					}
+					if g == 1 {
+						stride = st
+						break
+					}
+				}
 				for i := 0; i < 7; i++ {
-					v := d[(i*5)%len(d)]
+					v := d[(i*stride)%len(d)]
 					if f.nullable {
 						if i%3 == 1 {
 							v = ptrNil(f.code)
